@@ -50,9 +50,18 @@ package main
 //vc:  requires[C13] InvAll(statusFile, hasOK, tOK, pOK, hasCmp, tCmp, pCmp, chg, now)
 //vc:  assert[C13] at "filepath.WalkDir(" @policyNonEmpty policy != ""
 
+// checkedDevs: the devices check() was called for in this run. The walk marks
+// a device as seen only together with its check: a name marked because of some
+// other file of the device (A.raw, A.info) would make the walk skip the code
+// file itself when it is met later (code/ipv6/A) - the device would never be
+// listed.
+//vc:ghost var checkedDevs set[string]
 //vc:func Main$1
 //vc:  requires[C13] InvAll(statusFile, hasOK, tOK, pOK, hasCmp, tCmp, pCmp, chg, now)
 //vc:  requires[C13] policy != ""
+//vc:  hypothesis[C13] @seenMeansChecked forall x string :: { seen[x] } (x in seen) && seen[x] ==> checkedDevs[x]
+//vc:  assign after "check(cfg, device, policies, policy)" checkedDevs = store(checkedDevs, device, true)
+//vc:  ensures[C13] @seenMeansChecked forall x string :: { seen[x] } (x in seen) && seen[x] ==> checkedDevs[x]
 
 //vc:func main
 //vc:  requires[C13] InvAll(statusFile, hasOK, tOK, pOK, hasCmp, tCmp, pCmp, chg, now)
